@@ -38,6 +38,7 @@ type c19Case struct {
 	AudioStartMS int    `json:"audio_start_ms,omitempty"` // the audio track starts this late
 	AudioFirst   bool   `json:"audio_first,omitempty"`    // the audio track is listed before the video track in Muxer.Tracks
 	AudioDefault bool   `json:"audio_default,omitempty"`  // the additional audio track is the one marked IsDefault
+	BaseDays     int    `json:"base_days,omitempty"`      // the time stamps start that many days into the clock (a source that has been running for long)
 	ParamAt      int    `json:"param_at,omitempty"`       // video: the k-th key frame (1-based, > 1) switches to the other parameter set
 }
 
@@ -97,6 +98,13 @@ func c19List(tier string) []vh.Scenario {
 			for _, a := range c19AVAudio {
 				out = append(out, vh.Scenario{Name: fmt.Sprintf("C19 %s %s clock=%d d=%d seg=%dms +%s", s.Label, s.Kind, s.Clock, s.D, 1000, a), Weight: 40 + 90000/s.D})
 			}
+		}
+	}
+	// time stamps that start ten days into the clock (a source that has been running for long hands over its own time
+	// stamps): products of ticks and nanoseconds per second beyond 2^53
+	for _, s := range c19Sources(tier) {
+		if (s.Kind == "h264" && (s.D%1500 == 0 || s.D == 3003)) || c19TwoAudio(s) {
+			out = append(out, vh.Scenario{Name: fmt.Sprintf("C19 %s %s clock=%d d=%d seg=%dms base=10d", s.Label, s.Kind, s.Clock, s.D, 1000), Weight: 30})
 		}
 	}
 	// audio only, two audio tracks (the second one plain or marked as the default rendition)
@@ -208,13 +216,16 @@ func c19RunCase(cs c19Case) (viols [][2]string, nplaylists int, outcome string) 
 	rendPT := map[*muxerStream]int64{}
 	rendHadNonFinal := map[*muxerStream]bool{}
 	var Dticks int64 = -1
+	base := int64(cs.BaseDays) * 86400 * clock
+	abase := int64(cs.BaseDays) * 86400 * aclock
+	nextKey += base
 	for i := 0; i < total; i++ {
-		dts := int64(i) * d
+		dts := base + int64(i)*d
 		var err error
 		if atk != nil {
 			// audio that precedes this frame (the audio track may start late)
 			for {
-				at := int64(cs.AudioStartMS)*aclock/1000 + anext*astep
+				at := abase + int64(cs.AudioStartMS)*aclock/1000 + anext*astep
 				if at*clock > dts*aclock {
 					break
 				}
@@ -400,11 +411,15 @@ func c19Run(c *vh.Ctx) {
 	found := false
 	audio := ""
 	audioDefault := false
+	baseDays := 0
 	for _, s := range c19Sources(c.Tier) {
 		for _, sg := range []int{1000, 2000} {
 			base := fmt.Sprintf("C19 %s %s clock=%d d=%d seg=%dms", s.Label, s.Kind, s.Clock, s.D, sg)
 			if base == c.Scenario {
 				src, seg, found = s, sg, true
+			}
+			if base+" base=10d" == c.Scenario {
+				src, seg, found, baseDays = s, sg, true, 10
 			}
 			for _, a := range c19AVAudio {
 				if base+" +"+a == c.Scenario {
@@ -452,7 +467,7 @@ func c19Run(c *vh.Ctx) {
 				if audio != "" && len(sp) > 1 && ast != 0 {
 					continue
 				}
-				cs := c19Case{Src: src, PartMS: pm, SegMS: seg, Spacing: sp, Audio: audio, AudioStartMS: ast, AudioFirst: am.first, AudioDefault: audioDefault}
+				cs := c19Case{Src: src, PartMS: pm, SegMS: seg, Spacing: sp, Audio: audio, AudioStartMS: ast, AudioFirst: am.first, AudioDefault: audioDefault, BaseDays: baseDays}
 				if src.Kind == "h264" && len(sp) == 1 && sp[0] == 1000 && ast == 0 && !am.first {
 					// the same grid point with new parameter sets on the second / third key frame
 					for _, pa := range []int{2, 3} {
